@@ -981,7 +981,7 @@ def misc_hazard_rules(ctx: Ctx, functions) -> int:
     CLASSATTR an assignment to an attribute of a class object at run time (state shared by all instances)."""
     p = ctx.p
     n = 0
-    bad = {"TRUTHY": [], "OBJTRUTH": [], "EXCEPT": [], "SETORDER": [], "CLASSATTR": []}
+    bad = {"TRUTHY": [], "OBJTRUTH": [], "NONETRUTH": [], "EXCEPT": [], "SETORDER": [], "CLASSATTR": []}
 
     def field_expr(e, field_locals):
         if isinstance(e, ast.Attribute) and e.attr in NUMERIC_FIELDS and not isinstance(e.value, ast.Call):
@@ -1069,6 +1069,26 @@ def misc_hazard_rules(ctx: Ctx, functions) -> int:
         if fi is None:
             continue
         always_true = instance_locals(fi.node)
+        # parameters that default to None and are numbers when given (annotated int / float, or used in arithmetic / an ordering
+        # comparison): `if p:` treats a given 0 as "not given"
+        a_ = fi.node.args
+        pos = a_.posonlyargs + a_.args
+        dflt = dict(zip([x.arg for x in pos][len(pos) - len(a_.defaults):], a_.defaults))
+        dflt.update({x.arg: d for x, d in zip(a_.kwonlyargs, a_.kw_defaults) if d is not None})
+        none_params = {x.arg: x for x in pos + a_.kwonlyargs if isinstance(dflt.get(x.arg), ast.Constant) and dflt[x.arg].value is None}
+        numeric_none = set()
+        for nm_, arg_ in none_params.items():
+            ann = ast.unparse(arg_.annotation) if arg_.annotation is not None else ""
+            numeric = any(w in ann.replace(" ", "").replace("Optional[", "").replace("]", "").split("|") for w in ("int", "float"))
+            for x in ast.walk(fi.node):
+                if isinstance(x, ast.Compare) and any(isinstance(o, (ast.Lt, ast.LtE, ast.Gt, ast.GtE)) for o in x.ops) \
+                        and any(isinstance(y, ast.Name) and y.id == nm_ for y in [x.left] + x.comparators):
+                    numeric = True
+                if isinstance(x, ast.BinOp) and isinstance(x.op, (ast.Add, ast.Sub, ast.Mult, ast.Div, ast.FloorDiv, ast.Mod)) \
+                        and any(isinstance(y, ast.Name) and y.id == nm_ for y in (x.left, x.right)):
+                    numeric = True
+            if numeric and not any(isinstance(x, ast.Name) and x.id == nm_ and isinstance(x.ctx, ast.Store) for x in ast.walk(fi.node)):
+                numeric_none.add(nm_)
         field_locals = {a.targets[0].id for a in ast.walk(fi.node) if isinstance(a, ast.Assign) and len(a.targets) == 1 and isinstance(a.targets[0], ast.Name)
                         and isinstance(a.value, ast.Attribute) and a.value.attr in NUMERIC_FIELDS}
         # a name that is also assigned something else is not a pure field copy
@@ -1076,6 +1096,21 @@ def misc_hazard_rules(ctx: Ctx, functions) -> int:
             if isinstance(a, ast.Assign) and len(a.targets) == 1 and isinstance(a.targets[0], ast.Name) and a.targets[0].id in field_locals \
                     and not (isinstance(a.value, ast.Attribute) and a.value.attr in NUMERIC_FIELDS):
                 field_locals.discard(a.targets[0].id)
+        # ... and locals read out of a table whose every stored value is such a field (`open[key] = msg.time` ... `start = open.pop(key)`)
+        table_vals: dict[str, list] = {}
+        for a in ast.walk(fi.node):
+            if isinstance(a, ast.Assign) and len(a.targets) == 1 and isinstance(a.targets[0], ast.Subscript) and isinstance(a.targets[0].value, ast.Name):
+                table_vals.setdefault(a.targets[0].value.id, []).append(a.value)
+        numeric_tables = {t_ for t_, vs in table_vals.items() if vs and all(field_expr(v, field_locals) for v in vs)}
+        for a in ast.walk(fi.node):
+            if isinstance(a, ast.Assign) and len(a.targets) == 1 and isinstance(a.targets[0], ast.Name):
+                v = a.value
+                from_table = (isinstance(v, ast.Subscript) and isinstance(v.value, ast.Name) and v.value.id in numeric_tables) or \
+                    (isinstance(v, ast.Call) and isinstance(v.func, ast.Attribute) and v.func.attr == "pop" and len(v.args) == 1
+                     and isinstance(v.func.value, ast.Name) and v.func.value.id in numeric_tables)
+                nm_ = a.targets[0].id
+                if from_table and sum(1 for y in ast.walk(fi.node) if isinstance(y, ast.Name) and y.id == nm_ and isinstance(y.ctx, ast.Store)) == 1:
+                    field_locals.add(nm_)
         for x in ast.walk(fi.node):
             tests = []
             if isinstance(x, (ast.If, ast.While, ast.IfExp)):
@@ -1090,6 +1125,8 @@ def misc_hazard_rules(ctx: Ctx, functions) -> int:
                     bad["TRUTHY"].append((fi, t))
                 elif isinstance(t, ast.Name) and t.id in always_true:
                     bad["OBJTRUTH"].append((fi, t))
+                elif isinstance(t, ast.Name) and t.id in numeric_none:
+                    bad["NONETRUTH"].append((fi, t))
             if isinstance(x, ast.ExceptHandler):
                 n += 1
                 broad = x.type is None or (isinstance(x.type, ast.Name) and x.type.id in ("Exception", "BaseException"))
@@ -1109,6 +1146,7 @@ def misc_hazard_rules(ctx: Ctx, functions) -> int:
                             bad["CLASSATTR"].append((fi, x))
     texts = {"TRUTHY": ("a numeric message field is used as a truth value", "0 is a legal value and would be treated as absent"),
              "OBJTRUTH": ("an object without __bool__/__len__ is used as a truth value", "the test is constantly true: the class defines neither __bool__ nor __len__, so an empty sequence object is not falsy"),
+             "NONETRUTH": ("a numeric parameter that defaults to None is tested by its truth value", "a caller that passes 0 is treated like one that passes nothing (`is not None` was meant)"),
              "EXCEPT": ("a broad except swallows failures", "an error inside the operation leaves a half-updated result without any signal"),
              "SETORDER": ("a set is iterated to produce ordered output", "the order of the produced elements is arbitrary"),
              "CLASSATTR": ("a class attribute is assigned at run time", "the value is shared by all instances and by all later calls")}
